@@ -27,7 +27,7 @@ def _canon_float(t):
 FLOAT_TOK = [_canon_float(t) for t in ["0.0", "1.5", "-2.25", "NaN", "Infinity", "-Infinity", "1.7976931348623157E308",
                                        "5E-324", "1.0E-5", "123456.789", "-0.0", "1E22", "2.5E-7"]]
 STRINGS = ["", "plain", "with space", " lead and trail ", "quote\"s and 'apos'", "<tag> & entity", "üñí \U0001f600", "tab\there",
-           "line\nbreak", "0", "None", "true"]
+           "line\nbreak", "0", "None", "true", " ", "\n  ", "\t"]
 
 
 def rand_string(rng):
@@ -374,3 +374,34 @@ class CasGen:
                 return True
             t = self.types[t]["super"]
         return t == r
+
+
+def add_late_extension(g, rng, early_ops):
+    """A type system that grows while instances exist: a fresh type (unique name per scenario: `Type.__eq__` is structural across
+    type systems, so equally named types of other scenarios run by the same worker could answer for it in a per-type cache) with
+    one instance, then `early_ops(h0)` (serialisations / typecheck whose results are not looked at), then new primitive, reference
+    and FSArray features on that type, used by a second instance; the first instance never got those slots."""
+    h0 = g.views["_InitialView"]
+    late = "x.Late%d" % rng.randrange(10 ** 9)
+    g.sb.create_type(g.ts, late, "uima.cas.TOP")
+    g.sb.create_feature(g.ts, late, "v", "uima.cas.Integer")
+    f0 = g.sb.fs_new(g.ts, late, {"v": 1})
+    g.sb.op(op="cas.add", h=h0, fs=f0)
+    for o in early_ops(h0):
+        g.sb.op(**o)
+    late_range = rng.choice(["uima.cas.String", "uima.cas.Integer"])
+    late_elem = rng.choice([None, late, "uima.tcas.Annotation"])
+    g.sb.create_feature(g.ts, late, "late", late_range)
+    g.sb.create_feature(g.ts, late, "lateRef", late)
+    g.sb.create_feature(g.ts, late, "lateArr", "uima.cas.FSArray", elem=late_elem)
+    feats = {"v": 2, "lateRef": {"r": f0}}
+    f1 = g.sb.fs_new(g.ts, late, feats)
+    g.sb.op(op="cas.add", h=h0, fs=f1)
+    # the independent readers take the feature table from the generator
+    g.types[late] = {"super": "uima.cas.TOP", "feats": {
+        "v": {"name": "v", "py": "v", "kind": "prim", "range": "uima.cas.Integer"},
+        "late": {"name": "late", "py": "late", "kind": "prim", "range": late_range},
+        "lateRef": {"name": "lateRef", "py": "lateRef", "kind": "ref", "range": late},
+        "lateArr": {"name": "lateArr", "py": "lateArr", "kind": "fsarray", "range": "uima.cas.FSArray", "multi": None, "elem": late_elem}}}
+    g.order.append(late)
+    return late, f0, f1
